@@ -3,9 +3,30 @@
 package core
 
 import (
+	"encoding/json"
 	"fmt"
 	"hash/fnv"
 )
+
+// MarshalJSON keeps replay files compact: ["tag", n, v].
+func (d Decision) MarshalJSON() ([]byte, error) {
+	return json.Marshal([]any{d.Tag, d.N, d.V})
+}
+
+func (d *Decision) UnmarshalJSON(b []byte) error {
+	var a []any
+	if err := json.Unmarshal(b, &a); err != nil {
+		return err
+	}
+	if len(a) != 3 {
+		return fmt.Errorf("bad decision %s", b)
+	}
+	d.Tag, _ = a[0].(string)
+	n, _ := a[1].(float64)
+	v, _ := a[2].(float64)
+	d.N, d.V = int(n), int(v)
+	return nil
+}
 
 // Decision is one recorded choice.
 type Decision struct {
